@@ -130,6 +130,13 @@ SEQ_EXT = assignments(CUR_STEPSETS, (-1.0, 3.0, NAN))  # 192: better / worse tha
 SEQ_CONST = const_assignments(CUR_STEPSETS, (-1.0, 3.0, NAN))  # 24
 SEQ_CONST2 = const_assignments(CUR_STEPSETS, (-1.0, 3.0))  # 16
 
+# out-of-order reports (legal: any step may be reported at any time, once): every non-increasing
+# order of every step set with at least three steps, values better / worse than all others
+SEQ_PERM = [tuple(zip(perm, vs))
+            for ss in subsets(STEPS) if len(ss) >= 3
+            for perm in itertools.permutations(ss) if perm != ss
+            for vs in itertools.product((-1.0, 3.0), repeat=len(ss))]
+
 FULL4 = (0, 1, 2, 3)
 IV_FULL = assignments(subsets(STEPS), (0.0, 1.0, 2.0, NAN))  # 625
 IV_MID = assignments([(), FULL4, (0, 2), (1, 3), (3,), (0, 1)], (0.0, 2.0, NAN))  # 112
@@ -319,6 +326,7 @@ def blocks(tier: str) -> dict[str, dict]:
     # --- patient --------------------------------------------------------------------------------
     add("patient", "patient", grid_patient(),
         H_FEW if quick else hist_upto(K_SMALL, 1), SEQ_FULL, 0.003)
+    add("patient-out-of-order", "patient", grid_patient(), H_FEW, SEQ_PERM if not quick else SEQ_PERM[::3], 0.003)
     if not quick:
         add("patient-2others", "patient", grid_patient(), hist_upto(K_TINY, 2, exactly=True), SEQ_EXT, 0.003)
         add("patient-1other", "patient", grid_patient(), hist_upto(kinds(IV_MID, "CR"), 1), SEQ_EXT, 0.0025)
@@ -420,6 +428,8 @@ def protections(cfg: tuple, direction: str, hf: HistFacts, steps: tuple, vals: t
             out.append("dominant-trial-pruned")
     elif k == "patient":
         _, w, p, md = cfg
+        # the patience window is counted in STEPS, whatever the order the steps were reported in
+        vals = tuple(v for _, v in sorted(zip(steps, vals)))
         if len(vals) < p + 2:
             out.append("pruned-within-patience-window")
         else:
